@@ -218,21 +218,21 @@ func RunCheck(c *Check, tier string, seed int64) int {
 
 	// evidence
 	cov := map[string]any{
-		"evaluations":         tot.Evals,
-		"distinct_nontrivial": tot.Nontrivial,
-		"distinct_cases":      tot.Cases,
-		"enumerated":          enumerated,
-		"rule":                c.Rule,
-		"samples":             samples,
-		"exhaustive":          cappedShards == 0,
+		"evaluations":                           tot.Evals,
+		"distinct_nontrivial":                   tot.Nontrivial,
+		"distinct_cases":                        tot.Cases,
+		"enumerated":                            enumerated,
+		"rule":                                  c.Rule,
+		"samples":                               samples,
+		"exhaustive":                            cappedShards == 0,
 		"shards_stopped_after_repeated_crashes": cappedShards,
-		"bound":               c.Bounds[tier],
-		"distinct_outcomes":   len(outcomes),
-		"unconstrained_zones": tot.Zones,
-		"counters":            tot.Counters,
-		"known_findings_fired": ksigs,
-		"new_signatures":      newList,
-		"workers":             n,
+		"bound":                                 c.Bounds[tier],
+		"distinct_outcomes":                     len(outcomes),
+		"unconstrained_zones":                   tot.Zones,
+		"counters":                              tot.Counters,
+		"known_findings_fired":                  ksigs,
+		"new_signatures":                        newList,
+		"workers":                               n,
 	}
 	if c.Level == "model_checking" {
 		cov["states"] = tot.States
